@@ -43,7 +43,9 @@ def classify_a(b):
     """Direction A disagreement -> known-finding key (narrow) or None."""
     fam = b.get("clientFam", "")
     excess = b.get("seen", 0) - b.get("max", 0)
-    client_only = b.get("v", "") in ("no:R:C", "no:R:A", "no:S:C", "no:S:A")
+    # ("no:S:A" is left to the search-time finding: an entry stored anonymised
+    # cannot be re-identified whatever the spelling of the identifier.)
+    client_only = b.get("v", "") in ("no:R:C", "no:R:A", "no:S:C")
     if fam == "z6" and b.get("client") == "ip":
         # The persistent client is identified by a zoned link-local address:
         # the statistics (and only they) do not find it.
